@@ -60,7 +60,7 @@ class World:
             sims.append({"kind": "split", "family": fam, "arg": arg, "real_apply": r.random() < 0.5, "seed": r.choice([None, 5]),
                          "inplace": r.random() < 0.3})
         cfg = {"n": n, "sims": sims, "rng_mode": r.choice(["real", "adversarial", "adversarial"]), "rng_policy": r.choice(POLICIES),
-               "cache_clear": r.choice([0.0, 0.3, 1.0]), "faults": r.choice(["none", "none", "low"]), "clients": r.randint(1, 2)}
+               "cache_clear": r.choice([0.0, 0.3, 1.0]), "faults": r.choice(["none", "low", "low"]), "clients": r.randint(1, 2)}
         steps = []
         n_run = n
         wmin = max(1, n_run - 1)
@@ -100,8 +100,8 @@ class World:
                                          "op_ref": r.randrange(2) if r.random() < 0.4 else None,
                                          "bessel": r.random() < 0.3},
                  "client": r.randrange(cfg["clients"]), "rs": r.getrandbits(32)}
-            if cfg["faults"] != "none" and r.random() < 0.15:
-                s["fault"] = r.choice([{"kind": "peer", "at": r.randrange(0, 3), "view": r.choice(["run", "wf", "exact", "dist", "exact"])},
+            if cfg["faults"] != "none" and r.random() < 0.25:
+                s["fault"] = r.choice([{"kind": "peer", "at": r.randrange(0, 2), "view": r.choice(["run", "wf", "exact", "dist", "exact"])},
                                        {"kind": "alloc", "at": r.randrange(0, 40)}])
             steps.append(s)
         if r.random() < 0.3:
